@@ -240,7 +240,15 @@ class C05(Oracle):
         n = len(base.text)
         ev = display.evaluable(base)
         styles = display.expected_styles(base.cells) if ev else None
-        for kk in range(n + 1):
+        if n <= 8:
+            ks = range(n + 1)
+        else:
+            # longer values: the split points that matter are at and next to change points
+            want = {0, n, ctx.step % (n + 1)}
+            for cp in base.change_points():
+                want.update((cp - 1, cp, cp + 1))
+            ks = sorted(k for k in want if 0 <= k <= n)
+        for kk in ks:
             try:
                 j = v[:kk] + v[kk:]
                 o = observe(j)
